@@ -186,10 +186,10 @@ static void real_run(int run, vt::rng& g)
         if (x < T(0.03)) { d[0] = T(); d[1] = T(); d[2] = T(); }
         return T(1);
     };
-    long poison_call = (run % 4 == 1) ? (long) g.range(0, 5 * N) : -1; // one evaluation is +infinity in some runs
+    long poison_call = (run % 2 == 1 || run % 3 == 0) ? (long) g.range(0, 5 * N) : -1; // one evaluation is -inf, +inf or NaN in most runs
     auto fn = [&](hep::multi_channel_point<T> const& p) {
         long it = calls_done / N;
-        if (calls_done++ == poison_call) return std::numeric_limits<T>::infinity();
+        if (calls_done++ == poison_call) return run % 3 == 0 ? -std::numeric_limits<T>::infinity() : (run % 3 == 1 ? std::numeric_limits<T>::infinity() : std::numeric_limits<T>::quiet_NaN());
         if (it == zero_iter) return T();
         T x = p.coordinates()[0];
         if (x < T(0.03)) return T();
